@@ -1,3 +1,3 @@
 import CobaVerif.Driver.Loop
--- stub: replaced when the C19 model exists
-def main : IO Unit := Coba.J.runLoop (fun _ => .error "C19 driver not implemented")
+import CobaVerif.Driver.C19
+def main : IO Unit := Coba.J.runLoop Coba.C19.Driver.handle
